@@ -4,3 +4,11 @@ open Verif.Props.C09
 #print axioms xml_output_wellformed
 #print axioms svg_path_output_parses
 #print axioms svg_path_lex_roundtrip
+#print axioms css_writer_retokenises
+#print axioms css_writer_retokenises_counterexample
+#print axioms css_declaration_retokenises
+#print axioms css_second_pass_tokens
+#print axioms css_declaration_closed
+#print axioms css_url_closed
+#print axioms css_string_closed_partial
+#print axioms css_string_closed_counterexample
